@@ -294,7 +294,8 @@ class Interp:
         else:
             c2 = [f for f in c if '<impl at' not in f.name]
             c = c2 or c
-        if len(c) != 1: raise Unsupported(f'function {last} (type {ty}): {len(c)} candidates')
+        if len(c) != 1: raise Unsupported(f'function {last} (type {ty}): {len(c)} candidates in the MIR of the working tree')
+        self._entry_fn = c[0]      # the next run() of this function comes from a harness: check the parameter count
         return c[0]
     # ---------------------------------------------------------------- places
     def parse_place(self, s, fn):
@@ -602,6 +603,8 @@ class Interp:
         raise Unsupported('terminator ' + t)
     def run(self, fn, args):
         self.executed.add(fn.name)
+        entry = fn is getattr(self, '_entry_fn', None); self._entry_fn = None
+        if entry and fn.nargs != len(args): raise Unsupported(f'signature of {fn.name} changed: {fn.nargs} parameters in the MIR of the working tree, the harness passes {len(args)}')
         fr = [Cell() for _ in range(fn.nlocals + 1)]
         z = self.memo.get((id(fn), 'ZST'))
         if z is None:
